@@ -364,6 +364,9 @@ func gen(seed uint64, tier string) []*rtwire.Hist {
 	r := vproto.NewRng(seed ^ 0xC12)
 	var hs []*rtwire.Hist
 	for _, h := range rtwire.Corpus() {
+		if strings.Contains(h.Class, "specOnly") {
+			continue // non-dyadic coordinates: float distances are inexact, not a C12 family
+		}
 		h.Ops = h.Ops[:len(h.Ops)*2/5] // stop while the tree is populated
 		h.Class = "nn-" + h.Class
 		addQueries(r, h, 12)
